@@ -6,7 +6,7 @@
 From Coq Require Import ZArith Reals List.
 From Flocq Require Import Core IEEE754.BinarySingleNaN.
 From BU Require Import Lib.Bytes Gen.Xbchutil Amount.Amount Amount.RoundProofs Amount.UnitProofs
-  Amount.TextProofs Amount.FormatProofs.
+  Amount.TextProofs Amount.FormatProofs Amount.DenoteProofs.
 
 (* NewAmount errors exactly on NaN and the infinities *)
 Theorem C17_new_amount_rejects_nan_inf : forall f : float,
@@ -81,6 +81,12 @@ Theorem C17_to_unit_correct : forall a u : Z,
 Proof. exact to_unit_correct. Qed.
 Print Assumptions C17_to_unit_correct.
 
+(* ToBCH is that conversion at the BCH unit: the correctly rounded quotient a / 1e8 *)
+Theorem C17_to_bch_correct : forall a : Z, (Z.abs a <= 2 ^ 53)%Z ->
+  B2R (to_bch a) = RN (IZR a / IZR c_SatoshiPerBitcoin) /\ is_finite (to_bch a) = true.
+Proof. exact to_bch_correct. Qed.
+Print Assumptions C17_to_bch_correct.
+
 (* ... and below Satoshi: a division by the ROUNDED reciprocal power, not the correctly rounded
    product (root cause of known finding C17:format:unit<-8) *)
 Theorem C17_to_unit_subsatoshi : forall a u : Z,
@@ -107,6 +113,58 @@ Theorem C17_format_exact_partial : forall shortest : float -> list N,
   format shortest a u = format_spec a u.
 Proof. exact format_exact. Qed.
 Print Assumptions C17_format_exact_partial.
+
+(* The same with a right-hand side that mentions no float: for EVERY unit Satoshi..1e14 BCH (the
+   Satoshi unit included, where format_spec above is the model's own fixed-precision printer) the text
+   is exact_text a (u+8), a space and the label.  exact_text is characterised by
+   C17_exact_text_denotes below.  _partial for the same reason (strconv's shortest printer). *)
+Theorem C17_format_is_exact_text_partial : forall shortest : float -> list N,
+  shortest_printer_spec shortest ->
+  forall a u : Z, (Z.abs a <= c_MaxSatoshi)%Z -> (c_AmountSatoshi <= u <= 14)%Z ->
+  format shortest a u = format_exact_spec a u.
+Proof. exact format_is_exact_text. Qed.
+Print Assumptions C17_format_is_exact_text_partial.
+
+(* What exact_text means.  read_dec (Amount.v, specification side) reads "-"? digits ("." digits)? as
+   (sign, M, j), i.e. the number (-1)^sign * M / 10^j, and rejects any other string.  exact_text a k
+   reads back as exactly a / 10^k and has no trailing fractional zero. *)
+Theorem C17_exact_text_denotes : forall a k : Z, (0 <= k)%Z ->
+  exists M j, read_dec (exact_text a k) = Some ((a <? 0)%Z, M, j) /\ (0 <= M)%Z /\ (0 <= j <= k)%Z /\
+    ((if (a <? 0)%Z then - M else M) * 10 ^ (k - j) = a)%Z /\ (j = 0 \/ M mod 10 <> 0)%Z.
+Proof. exact exact_text_denotes. Qed.
+Print Assumptions C17_exact_text_denotes.
+
+(* The property's text clause in one statement: Format(u) = T ++ " " ++ label(u) where T is a decimal
+   numeral whose value is exactly a * 10^-(u+8).  _partial: strconv's shortest printer is a hypothesis. *)
+Theorem C17_format_denotes_partial : forall shortest : float -> list N,
+  shortest_printer_spec shortest ->
+  forall a u : Z, (Z.abs a <= c_MaxSatoshi)%Z -> (c_AmountSatoshi <= u <= 14)%Z ->
+  exists T M j, format shortest a u = T ++ 32%N :: unit_string u /\
+    read_dec T = Some ((a <? 0)%Z, M, j) /\ (0 <= M)%Z /\ (0 <= j <= u + 8)%Z /\
+    ((if (a <? 0)%Z then - M else M) * 10 ^ (u + 8 - j) = a)%Z /\ (j = 0 \/ M mod 10 <> 0)%Z.
+Proof. exact format_denotes. Qed.
+Print Assumptions C17_format_denotes_partial.
+
+(* Amount.String() = Format(AmountBCH) *)
+Theorem C17_string_partial : forall shortest : float -> list N,
+  shortest_printer_spec shortest ->
+  forall a : Z, (Z.abs a <= c_MaxSatoshi)%Z -> amount_string shortest a = format_exact_spec a c_AmountBCH.
+Proof. exact string_is_exact_text. Qed.
+Print Assumptions C17_string_partial.
+
+(* Satoshi unit, no hypothesis about strconv (precision 0 is modelled, not assumed): any printer *)
+Theorem C17_format_satoshi : forall (shortest : float -> list N) (a : Z), (Z.abs a <= c_MaxSatoshi)%Z ->
+  format shortest a c_AmountSatoshi = dec_text (a <? 0)%Z (Z.abs a) 0 ++ 32%N :: unit_string c_AmountSatoshi.
+Proof. exact format_satoshi. Qed.
+Print Assumptions C17_format_satoshi.
+
+(* what the model takes from the source text of amount.go besides the named constants: the
+   arguments of strconv.FormatFloat in Format ('f', 8, 64), the 8 of ToUnit, the base of FormatInt *)
+Theorem C17_source_literals :
+  lits_Amount_Format = [102; 8; 64]%Z /\ lits_Amount_ToUnit = [8]%Z /\ lits_AmountUnit_String = [10]%Z /\
+  lit_Format_8 = 8%Z /\ lit_ToUnit_8 = 8%Z /\ lit_String_base = 10%Z.
+Proof. exact source_literals. Qed.
+Print Assumptions C17_source_literals.
 
 Theorem C17_unit_labels :
   unit_string c_AmountMegaBCH = [77; 66; 67; 72]%N /\
